@@ -410,9 +410,33 @@ class OpGen:
             if ap and len(p) > 1 and k != "set":
                 leaves_of.setdefault(p[0], []).append(p)
         single = sorted(r for r, ls in leaves_of.items() if len(ls) == 1)
-        feasible = (["prune_root"] * 2 if single else []) + (["drop_set"] if sets else []) + ["leaf_cycle"]
+        families = sorted(r for r, ls in leaves_of.items() if len(ls) >= 2)
+        plain = [p for p, k, ap in existing if k == "leaf" and len(p) == 1 and not ap]
+        feasible = (["prune_root"] * 2 if single else []) + (["drop_set"] if sets else []) + ["leaf_cycle"] + (["family_then_sibling"] * 2 if families and plain else [])
+        if single and plain:
+            feasible += ["family_migrates"] * 2
         kind = rng.choice(feasible)
         ops: list = []
+        if kind == "family_migrates":
+            # an attrpath family gets a new member (appended at the end), loses its original one, and then a plain
+            # binding that stands between the two positions is removed
+            root = rng.choice(single)
+            ops.append({"op": "set", "path": npath(depth, (root, rng.choice(["nu", "mu", "x9"]))), "value": self.fresh_value()})
+            ops.append({"op": "rm", "path": npath(depth, leaves_of[root][0])})
+            ops.append({"op": "rm", "path": npath(depth, rng.choice(plain))})
+            return ops
+        if kind == "family_then_sibling":
+            # change the membership of an attrpath family (the render-order list gains / loses an entry while the
+            # list of values keeps its length), then remove a plain sibling, then touch the family again
+            root = rng.choice(families)
+            if rng.random() < 0.5:
+                ops.append({"op": "rm", "path": npath(depth, rng.choice(leaves_of[root]))})
+            else:
+                ops.append({"op": "set", "path": npath(depth, (root, rng.choice(["nu", "mu", "x9"]))), "value": self.fresh_value()})
+            ops.append({"op": "rm", "path": npath(depth, rng.choice(plain))})
+            if rng.random() < 0.5:
+                ops.append({"op": "set", "path": npath(depth, (root, rng.choice(["nu", "desc"]))), "value": self.fresh_value()})
+            return ops
         if kind == "prune_root" and single:
             root = rng.choice(single)
             if sets:
